@@ -38,7 +38,7 @@ def run(v):
                 return sig(dict(m, def_full=c["level"]))
         return sig(m)
     cov = merge_cov(cov, run_tree_groups(v, SEED + 1980, 12 if q else 60, 4 if q else 5, 1500 if q else 12000, ("adj", "acmd"),
-                                         tsig, ledger_every=3 if q else 1), "tree_groups")
+                                         tsig, ledger_every=3 if q else 1, driver_n=4000 if q else 100000), "tree_groups")
     cov["rule"] = ("group shapes {flag + 2..3 positionals, flag + two named arguments + optional switch} under one/opt/many among "
                    "0..2 other options and a trailing repeated positional; all lines up to maxlen: blocks at every position, "
                    "split by foreign items, cut short, `--`/help inside and next to blocks; AdjContiguous/CutKills checked by TLC; the same "
